@@ -31,8 +31,8 @@ type verifC02Action struct {
 }
 
 type verifC02Case struct {
-	MaxBytes int64         `json:"maxbytes"`
-	Clen     int64         `json:"clen"` // the request really carries that many body bytes
+	MaxBytes int64            `json:"maxbytes"`
+	Clen     int64            `json:"clen"` // the request really carries that many body bytes
 	Acts     []verifC02Action `json:"acts"`
 	Fire     struct {
 		Mode string `json:"mode"` // none | cut (the route's own timer fires while the handler is parked in front of action k)
